@@ -267,10 +267,20 @@ def run_unit(unit, repo='/repo', outdir=None, solver='z3', canary=True, timeout=
             undecided.append(d['message'] + ' :: ' + slug((d.get('rendered') or ''), 300))
             continue
         res['failed'].append(name_obligation(unit, meta, gen_lines, d, seen, os.path.basename(gpath)))
-    # notes attached to rlimit
+    # Resource-limit diagnostics: the solver gave up on (part of) one function.  On their own they mean *undecided*.
+    # When the same run also has definite failures (a named obligation that the verifier reports as not satisfied),
+    # those stand -- giving up on further errors of a function does not retract the ones already reported -- and the
+    # resource-limit messages are kept as notes.
+    rl_notes = []
     for d in parse_diags(se):
         if re.search(r'rlimit|Resource limit', d.get('message', '')):
-            undecided.append(d['message'])
+            rl_notes.append(d['message'])
+    only_rl = [u for u in undecided if re.search(r'rlimit|Resource limit', u)]
+    if res['failed'] and len(only_rl) == len(undecided):
+        res['resource_limit_notes'] = sorted(set(rl_notes + only_rl))[:10]
+        undecided = []
+    else:
+        undecided += rl_notes
 
     # per-function verdicts
     succ = {}
